@@ -101,13 +101,15 @@ def periodic_knots(p, breaks, mults, cont):
     return k
 
 
-def gen_basis(rng, kind=None, pmax=7, nint_max=6, big=False):
+def gen_basis(rng, kind=None, pmax=7, nint_max=6, big=False, multi=None):
     """returns dict(order, knots (Fractions), periodic)"""
     kind = kind or rng.choice(['open', 'open', 'nonopen', 'periodic', 'periodic'])
     p = rng.randint(2 if kind == 'periodic' else 1, pmax)
     nint = rng.randint(0, nint_max)
     breaks = place(rng, gen_breaks(rng, nint), big)
     mm = rng.choice([1, 1, p])  # mostly simple knots, sometimes anything up to p
+    if multi is not None and rng.random() < multi:
+        mm = p
     mults = [rng.randint(1, max(1, mm)) for _ in range(nint)]
     if kind == 'open':
         return dict(order=p, knots=open_knots(p, breaks, mults), periodic=-1, kind=kind)
